@@ -40,6 +40,8 @@ pub struct CtlCase {
     pub vanish_first: usize,
     /// what each vanishing client sends before it resets (empty: nothing)
     pub vanish_data: Vec<u8>,
+    /// the client pauses for that many virtual µs once it has sent the first `offset` bytes
+    pub gaps: Vec<(usize, u64)>,
 }
 
 fn hdrs_enc(hs: &[(Vec<u8>, Vec<u8>)]) -> String {
@@ -231,6 +233,7 @@ pub fn execute(c: &CtlCase, cfg: &Config) -> Outcome {
     let write_err = c.write_err;
     let vanish_first = c.vanish_first;
     let vanish_data = c.vanish_data.clone();
+    let gaps = c.gaps.clone();
     let (out, rep) = sched::run(cfg, move || {
         let server = Arc::new(Server::http("127.0.0.1:0").expect("server"));
         let addr = server.server_addr().to_ip().unwrap();
@@ -358,6 +361,7 @@ pub fn execute(c: &CtlCase, cfg: &Config) -> Outcome {
         }
         // ---- client: exact segments
         let mut cuts: Vec<usize> = segs.iter().cloned().filter(|&k| k > 0 && k < bytes.len()).collect();
+        cuts.extend(gaps.iter().map(|g| g.0).filter(|&k| k > 0 && k < bytes.len()));
         if let Some(h) = hold {
             if h > 0 && h < bytes.len() {
                 cuts.push(h);
@@ -375,6 +379,9 @@ pub fn execute(c: &CtlCase, cfg: &Config) -> Outcome {
                 let _ = cl.write(&bytes[pos..cut]);
             }
             pos = cut;
+            if let Some(g) = gaps.iter().find(|g| g.0 == cut) {
+                stdx::thread::sleep(Duration::from_micros(g.1));
+            }
             if Some(cut) == hold {
                 // withhold the rest until the server has said something (or everything is quiet)
                 sched::settle(2_000_000_000);
